@@ -13,11 +13,13 @@ import (
 	"fmt"
 	"os"
 	"path/filepath"
+	"runtime/debug"
 	"sort"
 	"strings"
 	"sync"
 
 	"github.com/massnetorg/mass-core/logging"
+	"github.com/sirupsen/logrus"
 	"github.com/massnetorg/mass-core/massutil"
 	"github.com/massnetorg/mass-core/pocec"
 	"github.com/massnetorg/mass-core/wire"
@@ -55,6 +57,11 @@ func vfSetup() {
 			lvl = "error"
 		}
 		logging.Init(vfLogDir, "vf.log", lvl, 0, true)
+		// logging.FATAL ends the process through logrus; leave a marker with the stack so that the driver can
+		// attribute the death to the case in flight
+		logrus.RegisterExitHandler(func() {
+			fmt.Fprintf(os.Stderr, "\nVERIF-FATAL-EXIT: the code under test called logging.FATAL (process exit)\n%s\n", debug.Stack())
+		})
 	})
 }
 
@@ -209,25 +216,37 @@ type vfOpt struct {
 	OpenStore func(path string, create bool) (walletdb.DB, error) // C12 wraps the store
 }
 
-// vfOpenLevel opens the LevelDB-backed wallet store. The repository's constructor asks goleveldb for a 64 MiB
-// write buffer, which goleveldb allocates anew for every transaction; for speed most cases build the same
-// *ldb.LevelDB value around a handle opened with a small buffer (all transaction/bucket code is the
-// repository's), and every 8th case goes through ldb.CreateDB/OpenDB itself.
+// vfOpenLevel opens the LevelDB-backed wallet store through the repository's constructor. That constructor asks
+// goleveldb for a 64 MiB write buffer, which goleveldb allocates anew for every transaction; for speed most
+// opens then swap the inner goleveldb handle for one opened with a small buffer (same *ldb.LevelDB value, all
+// transaction/bucket code is the repository's); every 8th open keeps the original handle.
 var vfOpenCount int
 
 func vfOpenLevel(path string, create bool) (walletdb.DB, error) {
 	vfOpenCount++
-	if os.Getenv("VERIF_REAL_OPEN") == "1" || vfOpenCount%8 == 0 {
-		if create {
-			return ldb.CreateDB(path)
-		}
-		return ldb.OpenDB(path)
+	var d walletdb.DB
+	var err error
+	if create {
+		d, err = ldb.CreateDB(path)
+	} else {
+		d, err = ldb.OpenDB(path)
 	}
-	h, err := leveldb.OpenFile(path, &opt.Options{WriteBuffer: 1 << 20, BlockCacheCapacity: 1 << 20, ErrorIfMissing: !create, ErrorIfExist: create})
+	if err != nil || os.Getenv("VERIF_REAL_OPEN") == "1" || vfOpenCount%8 == 0 {
+		return d, err
+	}
+	l, ok := d.(*ldb.LevelDB)
+	if !ok || l.LDb == nil {
+		return d, nil
+	}
+	if err := l.LDb.Close(); err != nil {
+		return nil, err
+	}
+	h, err := leveldb.OpenFile(path, &opt.Options{WriteBuffer: 1 << 20, BlockCacheCapacity: 1 << 20, ErrorIfMissing: true})
 	if err != nil {
 		return nil, err
 	}
-	return &ldb.LevelDB{LDb: h}, nil
+	l.LDb = h
+	return l, nil
 }
 
 func (e *vfEnv) open(w *vfW, pub string) error {
@@ -299,6 +318,35 @@ func (e *vfEnv) pass(w *vfW, sel string) string {
 		return "Never2Used$pass"
 	case sel == "pub":
 		return w.m.PubPass
+	case strings.HasPrefix(sel, "near:"):
+		// near misses of the current private passphrase
+		cur := e.pass(w, "cur")
+		switch sel[5:] {
+		case "append":
+			return cur + "x"
+		case "append0":
+			// NOT generated: scrypt = PBKDF2-HMAC-SHA256 keys HMAC with the passphrase, and HMAC zero-pads keys shorter
+			// than its block, so pass and pass+"\x00" are the same scrypt input. Accepting it discloses nothing (who
+			// knows one knows the other); demanding rejection would be a false alarm against the primitive.
+			return cur + "\x00"
+		case "trunc":
+			return cur[:len(cur)-1]
+		case "case":
+			b := []byte(cur)
+			for i := range b {
+				if b[i] >= 'a' && b[i] <= 'z' {
+					b[i] -= 32
+					return string(b)
+				} else if b[i] >= 'A' && b[i] <= 'Z' {
+					b[i] += 32
+					return string(b)
+				}
+			}
+			return cur + "y"
+		case "double":
+			return cur + cur
+		}
+		return cur + "z"
 	case strings.HasPrefix(sel, "lit:"):
 		return sel[4:]
 	}
@@ -1217,7 +1265,8 @@ done:
 // ---------------------------------------------------------------------------------------------------
 // generators
 
-var vfPassPool = []string{"Alpha1#passw", "Bravo2$passw0rd", "Charlie3%pw", "Delta4^passphrase&Delta4", "Echo55@pw"}
+var vfPassPool = []string{"Alpha1#passw", "Bravo2$passw0rd", "Charlie3%pw", "Delta4^passphrase&Delta4", "Echo55@pw",
+	"Foxtrot6@maximum#length$passphrase%40ch^", "Golf7&"} // includes the maximal (40) and minimal (6) legal lengths
 var vfPubPool = []string{"Public1#pass", "Public2$other", "Pub3%third@pw"}
 var vfBadPass = []string{"", "abc", "12345", "has space in it", "exclaim!mark1", strings.Repeat("x", 41), "tab\tchar12", "nul\x00byte1"}
 var vfRemarks = []string{"", "r", "my wallet", "备注✓", "a\"b\\c", strings.Repeat("R", 70), "  ", "null"}
@@ -1247,11 +1296,13 @@ func vfGenSeed(t *rapid.T) []byte {
 }
 
 func vfGenPrivSel(t *rapid.T, bad bool, label string) string {
-	n := 19
+	n := 22
 	if !bad {
 		n = 9
 	}
 	switch k := rapid.IntRange(0, n).Draw(t, label); {
+	case k >= 20:
+		return "near:" + rapid.SampledFrom([]string{"append", "trunc", "case", "double"}).Draw(t, label+"Near")
 	case k <= 8:
 		return "cur"
 	case k <= 10:
